@@ -1,6 +1,9 @@
 package cmd
 
 import (
+	"os"
+	"path/filepath"
+
 	"github.com/spf13/cobra"
 	"github.com/spf13/pflag"
 )
@@ -28,4 +31,41 @@ func trackChangedFlags(cmd *cobra.Command) map[string]bool {
 		})
 	}
 	return flagsChanged
+}
+
+// writeFileAtomic replaces the content of path so that a concurrent reader, a
+// failed write or a crash at any moment leaves either the complete old or the
+// complete new content on disk, never a truncated mix: the bytes are written to
+// a temporary file in the same directory, flushed, and renamed over the target.
+// An existing target keeps its permission bits (as with os.WriteFile, perm is
+// only used when the file does not exist yet) and is written through symlinks.
+func writeFileAtomic(path string, data []byte, perm os.FileMode) error {
+	if real, err := filepath.EvalSymlinks(path); err == nil {
+		path = real
+	}
+	if info, err := os.Stat(path); err == nil {
+		perm = info.Mode().Perm()
+	}
+	tmp, err := os.CreateTemp(filepath.Dir(path), "."+filepath.Base(path)+".tmp-*")
+	if err != nil {
+		return err
+	}
+	tmpName := tmp.Name()
+	_, err = tmp.Write(data)
+	if err == nil {
+		err = tmp.Chmod(perm)
+	}
+	if err == nil {
+		err = tmp.Sync()
+	}
+	if cerr := tmp.Close(); err == nil {
+		err = cerr
+	}
+	if err == nil {
+		err = os.Rename(tmpName, path)
+	}
+	if err != nil {
+		_ = os.Remove(tmpName)
+	}
+	return err
 }
